@@ -27,7 +27,6 @@ from concurrent.futures import ThreadPoolExecutor
 from .. import trace
 from ..overlay import MachineryError
 
-H3_MESSAGE_ERROR = 0x10E
 FT_DATA, FT_HEADERS, FT_PUSH_PROMISE = 0x0, 0x1, 0x5
 
 
@@ -139,7 +138,7 @@ class Rig:
     def build(self, scn, enc_how="lsqpack"):
         """The bytes of the stream under test: (payload, length of each frame's
         share of it, deliverable, bytes of the peer's QPACK encoder stream,
-        whether a PUSH_PROMISE block depends on them, how many blocks do).  Deliverable = an
+        how many blocks depend on them).  Deliverable = an
         independent QPACK decoder turns every block back into the list it was
         made from."""
         sid = 0 if scn["chan"] == "request" else 15
@@ -147,7 +146,7 @@ class Rig:
         dec = self.pylsqpack.Decoder(4096, 16)
         estream = enc.apply_settings(max_table_capacity=4096, blocked_streams=16) if enc_how == "dynamic" else b""
         prefix = varint(1) + varint(0) if scn["chan"] == "push" else b""   # stream type PUSH, push id 0
-        parts, blocks, bp, dyn = [], [], False, 0
+        parts, blocks, dyn = [], [], 0
         for f in scn["frames"]:
             if f["t"] == "D":
                 parts.append(frame(FT_DATA, b"x" * f["n"]))
@@ -156,9 +155,7 @@ class Rig:
             block, more = self.encode_block(enc, sid, headers, enc_how)
             estream += more
             blocks.append((block, headers))
-            if block[:1] != b"\x00":                                # required insert count > 0
-                dyn += 1
-                bp = bp or f["t"] == "P"
+            dyn += block[:1] != b"\x00"                             # required insert count > 0
             parts.append(frame(FT_HEADERS, block) if f["t"] == "H" else frame(FT_PUSH_PROMISE, varint(1) + block))
         ok = True
         try:
@@ -171,7 +168,7 @@ class Rig:
             ok = False
         if parts:
             parts[0] = prefix + parts[0]
-        return b"".join(parts), [len(x) for x in parts], ok, estream, bp, dyn
+        return b"".join(parts), [len(x) for x in parts], ok, estream, dyn
 
     def run(self, scn, cuts, enc_how="lsqpack", built=None):
         """Replay one scenario.  `cuts` = chunk sizes of the stream under test
@@ -179,7 +176,7 @@ class Rig:
         arrives after the stream under test (whose header blocks wait for it).
         Returns the record for TraceHeaderRules."""
         role, chan, fin = scn["role"], scn["chan"], scn["fin"]
-        payload, _, ok, estream, bp = (built or self.build(scn, enc_how))[:5]
+        payload, _, ok, estream = (built or self.build(scn, enc_how))[:4]
         q = FakeQuic(self.cfg[role])
         h3 = self.h3c.H3Connection(q)
         peer_encoder_stream = None
@@ -218,7 +215,7 @@ class Rig:
             for ev in evs:
                 if getattr(ev, "stream_id", None) == sid:
                     events.append(self.project(ev))
-        return {"role": role, "chan": chan, "frames": scn["frames"], "fin": fin, "ok": ok, "bp": bp,
+        return {"role": role, "chan": chan, "frames": scn["frames"], "fin": fin, "ok": ok,
                 "events": events, "close": q.closed or 0, "raised": raised}
 
     def project(self, ev):
@@ -369,10 +366,12 @@ def rand_scenario(rnd):
     if role == "client" and chan == "request" and rnd.random() < 0.3:
         frames.append({"t": "P", "hs": rand_block(rnd, "push", 0), "n": 0})
     if frames and rnd.random() < 0.4:
-        return {"role": role, "chan": chan, "frames": frames, "fin": "none"}
+        return {"role": role, "chan": chan, "frames": frames, "fin": rnd.choice(("none", "none", "last", "lone"))}
     frames.append({"t": "H", "hs": rand_block(rnd, "request" if role == "server" else "response", total), "n": 0})
     for n in sizes:
         frames.append({"t": "D", "hs": [], "n": n})
+    if role == "client" and chan == "request" and rnd.random() < 0.1:      # a promise after the response
+        frames.append({"t": "P", "hs": rand_block(rnd, "push", 0), "n": 0})
     if rnd.random() < 0.35:
         frames.append({"t": "H", "hs": rand_block(rnd, "trailers", 0), "n": 0})
     return {"role": role, "chan": chan, "frames": frames, "fin": rnd.choice(("none", "last", "last", "lone", "lone"))}
@@ -555,15 +554,15 @@ def run(check):
             for mode in plan[fam]:
                 cuts = cuts_for(built, mode, rnd)
                 sink.add(rig.run(scn, cuts, built=built), {"cuts": cuts, "enc": "lsqpack", "family": fam + "/" + mode})
-            hs0 = scn["frames"][0]["hs"]
-            if (fam == "B" and len(hs0) <= qmax) or (fam == "C" and not quick) or \
+            hs0, hs_last = scn["frames"][0]["hs"], scn["frames"][-1]["hs"]      # D: the block with content-length; B: the block under test
+            if (fam == "B" and len(hs_last) <= qmax) or (fam == "C" and not quick) or \
                     (fam == "D" and (quick or sum(1 for h in hs0 if bytes(h[0]) == b"content-length") <= 1)):
                 built = rig.build(scn, "dynamic")
                 fam_counts["Q"] += 1
                 if not built[2]:
                     skipped["Q"] = skipped.get("Q", 0) + 1
                     continue
-                waited += built[5] > 0
+                waited += built[4] > 0
                 sink.add(rig.run(scn, None, "dynamic", built=built), {"cuts": None, "enc": "dynamic", "family": "Q/whole"})
         lap("replay_%s%d" % (fam, part))
     r = fut_m.result()
